@@ -15,6 +15,11 @@ use vlib::deals::*;
 use vlib::par::par_map;
 use vlib::report::{catch, Report, Violation};
 
+fn card_idx(t: &str) -> u8 {
+    let b = t.as_bytes();
+    (RANK_CHARS.iter().position(|x| *x == b[0] as char).unwrap() * 4 + SUIT_CHARS.iter().position(|x| *x == b[1] as char).unwrap()) as u8
+}
+
 fn valid(t: u8, r: u8) -> bool {
     (t < r && r <= 48) || (t == 48 && r == 49)
 }
@@ -140,6 +145,16 @@ pub fn run(tier: &str) -> i32 {
                 }
             }
         }
+        // a geometric ladder between the dense range and 2^24 (ratio 1.047 in quick, 1.0047 in thorough): sparse,
+        // irregular failures in the millions cannot be enumerated, but every decade is sampled at regular ratios
+        {
+            let ratio: f64 = if thorough { 1.0047 } else { 1.047 };
+            let mut x = max_n as f64 * 1.01;
+            while x < (1u64 << 24) as f64 {
+                ns.push(x as u32);
+                x *= ratio;
+            }
+        }
         // beyond 2^24 an f32 cannot count workers one by one any more
         for huge in [1u32 << 21, 1 << 22, 1 << 23, (1 << 24) - 1, 1 << 24, (1 << 24) + 1, (1 << 24) + (1 << 16), 17_000_000, 20_000_000, 1 << 25] {
             ns.push(huge);
@@ -161,7 +176,7 @@ pub fn run(tier: &str) -> i32 {
                 rep.violation(Violation { key: format!("n={} scope={}", ns[i], sc), sub: "large-n".into(), case: json!({"n": ns[i]}), expected: json!("a valid tiling"), observed: json!(d) });
             }
         }
-        rep.sub("large-n", "worker counts beyond the dense range: 2^k + d for k = 16..=20 (22 in thorough), |d| <= 6 (32), values around 10^5, 2.5*10^5, 5*10^5, 10^6, ..., and 2^21, 2^22, 2^23, 2^24 +- 1, 2^24 + 2^16, 1.7*10^7, 2*10^7, 2^25: the same list checks", seen, ns.len() as u64, false, json!({"worker_counts": ns.len(), "largest": ns.last()}));
+        rep.sub("large-n", "worker counts beyond the dense range: 2^k + d for k = 16..=20 (22 in thorough), |d| <= 6 (32), values around 10^5, 2.5*10^5, 5*10^5, 10^6, ..., a geometric ladder up to 2^24 (ratio 1.047 quick / 1.0047 thorough), and 2^21, 2^22, 2^23, 2^24 +- 1, 2^24 + 2^16, 1.7*10^7, 2*10^7, 2^25: the same list checks", seen, ns.len() as u64, false, json!({"worker_counts": ns.len(), "largest": ns.last()}));
     }
     rep.sample(json!({"n": 4, "scopes": scope::calculate_scopes(4).iter().map(|s| json!([[s.turn_from, s.river_from], [s.turn_to, s.river_to]])).collect::<Vec<_>>()}));
     rep.sample(json!({"n": 17, "scope_11": {"to": [scope::calculate_scopes(17)[11].turn_to, scope::calculate_scopes(17)[11].river_to]}}));
@@ -207,6 +222,89 @@ pub fn run(tier: &str) -> i32 {
     }
     rep.machine(it_runs * 1176, it_runs * 1176, it_runs);
     rep.sub("through-iterator", "for every n in 1..=M each scope of the list is run through FlopExhaustiveEvaluator::scope as a worker would, and the concatenation is compared per position with M-deals (two configurations)", it_runs, it_runs, false, json!({"max_n": max_it}));
+
+    // (2b) the example binary itself, for every worker count this machine can present (CPU affinity k => k-1 workers)
+    if let Ok(bin) = std::env::var("VERIF_EXAMPLE_BIN") {
+        use espada::hand_range::HandRange;
+        let configs: Vec<(&str, Vec<&str>)> = vec![("Qs8d2h", vec!["JJ+", "A2s+"]), ("AsKd7c", vec!["QQ+", "AKs,AKo", "76s:0.5,2c2d"])];
+        let cpus = vlib::par::n_threads().max(2);
+        let ks: Vec<usize> = if thorough { (2..=cpus).collect() } else { [2usize, 3, 4, 5, 8, 12, 16].iter().cloned().filter(|k| *k <= cpus).collect() };
+        let mut runs = 0u64;
+        for (flop_t, ranges_t) in &configs {
+            // reference: the same formula as main.rs, single-threaded, through the real evaluator
+            let flop = [card_idx(&flop_t[0..2]), card_idx(&flop_t[2..4]), card_idx(&flop_t[4..6])];
+            let ranges: Vec<HandRange> = ranges_t.iter().map(|t| t.parse().unwrap()).collect();
+            let mut expect: std::collections::BTreeMap<String, (f64, u64)> = Default::default();
+            let mut total = 0u64;
+            let r2 = ranges.clone();
+            let reference = catch(move || {
+                let mut m: std::collections::BTreeMap<String, (f64, u64)> = Default::default();
+                let mut total = 0u64;
+                for sd in FlopExhaustiveEvaluator::new(&board_opt(&flop), &r2) {
+                    total += 1;
+                    for p in sd.players().iter() {
+                        let e = m.entry(p.hole_cards().to_string()).or_insert((0.0, 0));
+                        e.1 += 1;
+                        if p.is_winner() {
+                            e.0 += 1.0 / sd.winner_len() as f64 * sd.probability() as f64;
+                        }
+                    }
+                }
+                (m, total)
+            });
+            if let Ok((m, t)) = reference {
+                expect = m;
+                total = t;
+            }
+            for &k in &ks {
+                runs += 1;
+                let out = std::process::Command::new("taskset").arg("-c").arg(format!("0-{}", k - 1)).arg(&bin).arg(flop_t).args(ranges_t.iter()).output();
+                let text = match out {
+                    Ok(o) => String::from_utf8_lossy(&o.stdout).to_string(),
+                    Err(e) => {
+                        eprintln!("  [C16] cannot run the example under taskset: {} (sub-check skipped)", e);
+                        break;
+                    }
+                };
+                let mut got_total: Option<u64> = None;
+                let mut got: std::collections::BTreeMap<String, f64> = Default::default();
+                for l in text.lines() {
+                    if let Some(rest) = l.strip_prefix("materialized: ") {
+                        got_total = rest.split_whitespace().next().and_then(|x| x.parse().ok());
+                    } else if let Some((k2, v)) = l.split_once(": ") {
+                        if k2.len() == 4 && v.ends_with('%') {
+                            if let Ok(x) = v.trim_end_matches('%').parse::<f64>() {
+                                got.insert(k2.to_string(), x);
+                            }
+                        }
+                    }
+                }
+                let mut problem: Option<String> = None;
+                if got_total != Some(total) {
+                    problem = Some(format!("materialized {:?}, the single-threaded enumeration has {}", got_total, total));
+                } else {
+                    for (combo, (wins, cnt)) in &expect {
+                        if *cnt == 0 {
+                            continue;
+                        }
+                        let want = wins / *cnt as f64 * 100.0;
+                        match got.get(combo) {
+                            Some(x) if (x - want).abs() <= 0.0015 => {}
+                            other => {
+                                problem = Some(format!("{}: {:?}%, single-threaded {:.3}%", combo, other, want));
+                                break;
+                            }
+                        }
+                    }
+                }
+                if let Some(p) = problem {
+                    rep.violation(Violation { key: format!("example workers={} flop={} ranges={:?}", k - 1, flop_t, ranges_t), sub: "example-binary".into(), case: json!({"cpus": k, "flop": flop_t, "ranges": ranges_t}), expected: json!("the per-thread results add up to the single-threaded result"), observed: json!(p) });
+                }
+            }
+        }
+        rep.machine(runs.max(1), runs.max(1), runs);
+        rep.sub("example-binary", "the example program itself (main.rs + scope.rs, release build) run with CPU affinity k, i.e. k-1 workers, for k in {2,3,4,5,8,12,16} (every k up to the machine size in thorough) on two configurations: 'materialized' and every printed equity compared with the single-threaded enumeration through the same formula", runs, runs, false, json!({"worker_counts": ks.iter().map(|k| k - 1).collect::<Vec<_>>()}));
+    }
 
     // (3) the transcription over its whole input space
     match unbound {
